@@ -57,7 +57,7 @@ package api
 //@   requires rate != nil && iterationDuration > 0 && opts.Concurrency >= 1 && wfManager(workers)
 //@   dyncall rate : anyRate
 //@   ghost at entry : G9evals = 0 ; G9trig = 0 ; G9ticks = 0 ; G9tickerMade = false
-//@   ghost before call dyn:rate #1 : G9ticks = G9ticks + 1
+//@   ghost after call select:arm1 : G9ticks = G9ticks + 1
 //@   ghost after call dyn:rate : G9evals = G9evals + 1 ; G9last = ret0
 //@   ghost before call (*PoolManager).NewTriggerPool : assert [concurrency] arg1 == opts.Concurrency && arg0 == workers
 //@   ghost before call (*TriggerPool).Trigger : assert [unchanged] arg2 == G9last ; assert [one-per-evaluation] G9trig == G9evals - 1 ; G9trig = G9trig + 1
